@@ -16,6 +16,12 @@ A *history* is   {"classes": [[mode, creator, truth, eq], ...], "nconn": n, "pat
           what the constructor / creator does IF it is run for this call: ok / returns a foreign object / raises ArithmeticError /
           raises a TypeError from its own body on every run / raises that TypeError on its FIRST run of this call only (a second
           run — which correct code never makes — would succeed with (t, e)).  te and te1 are `raises` for the model.
+Further outcomes: ["bx"] = the constructor / creator raises SystemExit (a BaseException that `except Exception` does not catch;
+`raises` for the model); a 4th element "mx" on an ok/wt/te1 outcome = the remote METHOD raises KeyboardInterrupt after the
+instance was handed out (the model's call ends when the instance is handed out: it is a served call).
+path "job": every connection lives in a worker thread running the real thread-server job `svr_threads.ClientConnectionJob`
+(handshake, request loop, disconnect) over a blocking in-memory socket, driven in lockstep by the harness.
+Event ["Z", d] = `daemons[d].close()` is called; the Daemon object (its tables, its open connections) lives on.
 Optional "bad_shutdown": [c, ...] — connections whose socket fails in shutdown() (peer reset) when they are closed.
 Several daemons: optional "ndaemon": m (connection c belongs to daemon c % m; every daemon serves the SAME class objects) and
 events ["D", d] = daemon d is shut down and a new Daemon object takes its place (its connections are gone with it).
@@ -31,7 +37,7 @@ common.repo_on_path()
 
 FAIL = ArithmeticError          # what user code raises when its outcome is "rs"
 MARK = "c09 user code fails"    # message of the TypeError user code raises from its own body (outcomes te / te1)
-FAILING = ("rs", "te", "te1")   # outcomes under which a (first) run of user code raises
+FAILING = ("rs", "te", "te1", "bx")   # outcomes under which a (first) run of user code raises
 
 
 def base_creator(creator):
@@ -50,6 +56,8 @@ def flatten(hist):
     gen = [0] * m
     events, kept = [], []
     for j, ev in enumerate(hist["events"]):
+        if ev[0] == "Z":
+            continue
         if ev[0] == "D":
             d = ev[1]
             gen[d] += 1
@@ -119,6 +127,110 @@ class FakeSock:
         return -1
 
 
+class BlockSock(FakeSock):
+    """in-memory socket whose recv BLOCKS until the harness feeds bytes or ends the stream (for a worker thread)"""
+
+    def __init__(self, fail_shutdown=False):
+        FakeSock.__init__(self, b"", fail_shutdown)
+        self.cond = threading.Condition()
+        self.eof = False
+
+    def feed(self, data):
+        with self.cond:
+            FakeSock.feed(self, data)
+            self.cond.notify_all()
+
+    def end(self):
+        with self.cond:
+            self.eof = True
+            self.cond.notify_all()
+
+    def recv(self, n, flags=0):
+        with self.cond:
+            if not self.cond.wait_for(lambda: self.pos < len(self.inbuf) or self.eof, timeout=30):
+                raise OSError(110, "harness: nothing fed")
+            return FakeSock.recv(self, n, flags)
+
+    def sendall(self, data):
+        with self.cond:
+            self.out += bytes(data)
+            self.cond.notify_all()
+
+    def send(self, data):
+        self.sendall(data)
+        return len(data)
+
+
+class JobConn:
+    """one client connection served by the REAL thread-server job in a worker thread, in lockstep with the harness"""
+
+    def __init__(self, world, daemon, keep_open, fail_shutdown):
+        from Pyro5 import svr_threads, protocol, serializers, core
+        self.world = world
+        self.sock = BlockSock(fail_shutdown)
+        self.job = svr_threads.ClientConnectionJob(self.sock, ("fake", 0), daemon)
+        self.job.csock.keep_open = bool(keep_open)
+        self.exc = None
+        self.done = threading.Event()
+        self.seq = 0
+
+        def work():
+            try:
+                self.job()
+            except BaseException as x:      # noqa: what kills the worker is recorded, the harness judges it
+                self.exc = x
+            finally:
+                self.done.set()
+                with self.sock.cond:
+                    self.sock.cond.notify_all()
+        self.thread = threading.Thread(target=work, name="c09-job", daemon=True)
+        self.thread.start()
+        self.ident = self.thread.ident
+        ser = serializers.serializers["serpent"]
+        data = ser.dumps({"handshake": "hello", "object": core.DAEMON_NAME})
+        self.sock.feed(protocol.SendingMessage(protocol.MSG_CONNECT, 0, 0, ser.serializer_id, data).data)
+        if self._reply() is None:
+            raise RuntimeError("c09 job rig: handshake got no reply (%r)" % (self.exc,))
+
+    @property
+    def pyroInstances(self):
+        return self.job.csock.pyroInstances
+
+    @property
+    def alive(self):
+        return not self.done.is_set()
+
+    def _reply(self):
+        """wait for one complete reply message (-> ReceivingMessage) or for the death of the worker (-> None)"""
+        from Pyro5 import protocol, socketutil, errors
+
+        def parse():
+            try:
+                return protocol.recv_stub(socketutil.SocketConnection(FakeSock(bytes(self.sock.out)), keep_open=True))
+            except (errors.ConnectionClosedError, errors.ProtocolError):
+                return None
+        with self.sock.cond:
+            if not self.sock.cond.wait_for(lambda: parse() is not None or self.done.is_set(), timeout=30):
+                raise RuntimeError("c09 job rig: worker neither replied nor ended")
+            msg = parse()
+            del self.sock.out[:]
+        return msg
+
+    def invoke(self, oid):
+        from Pyro5 import protocol, serializers
+        ser = serializers.serializers["serpent"]
+        self.seq = (self.seq + 1) % 65536
+        msg = protocol.SendingMessage(protocol.MSG_INVOKE, 0, self.seq, ser.serializer_id, ser.dumpsCall(oid, "who", [], {}))
+        self.sock.feed(msg.data)
+        return self._reply()
+
+    def close(self):
+        """the client goes away: end of stream; the job must disconnect and close the connection itself"""
+        self.sock.end()
+        if not self.done.wait(30):
+            raise RuntimeError("c09 job rig: worker did not end after EOF")
+
+
 class FalsyCreator:
     """a perfectly good callable creator that happens to be falsy"""
 
@@ -156,6 +268,7 @@ class World:
     def restart_daemon(self, d):
         """daemon d is shut down for real; a brand-new Daemon object serves in its place"""
         old = self.daemons[d]
+        self.closed.discard(d)
         old.close()
         self.dead.append(old)                 # kept referenced: its id() is not recycled, its tables can still be inspected
         self.daemons[d] = self.make_daemon()
@@ -164,6 +277,7 @@ class World:
     def __init__(self):
         self.daemons = [self.make_daemon()]
         self.dead = []
+        self.closed = set()        # indices of live-pool daemons on which close() was called during the current history
         self.flags = {}            # thread ident -> {"runs": user-code runs during the current call, "via_creator": bool}
         self.sched = None
         self.serial = 0
@@ -191,10 +305,21 @@ class World:
     def _plan(self):
         return self.plan[threading.get_ident()]
 
-    def _begin_call(self, outcome):
-        me = threading.get_ident()
+    def _begin_call(self, outcome, ident=None):
+        me = ident or threading.get_ident()
         self.plan[me] = outcome
-        self.flags[me] = {"runs": 0, "via_creator": False}
+        self.flags[me] = {"runs": 0, "via_creator": False, "served": None}
+
+    def _method_runs(self, serial):
+        """every remote method / identity query goes through here: remembers who served, raises for a "mx" outcome"""
+        me = threading.get_ident()
+        f = self.flags.get(me)
+        if f is None:
+            return
+        f["served"] = serial
+        p = self.plan.get(me)
+        if p is not None and len(p) > 3 and p[3] == "mx":
+            raise KeyboardInterrupt("c09 method is interrupted")
 
     def _user_code_runs(self):
         """called at the start of every run of the code that creates (creator, or constructor when no creator is used):
@@ -202,6 +327,8 @@ class World:
         f = self.flags[threading.get_ident()]
         f["runs"] += 1
         p = self._plan()
+        if p[0] == "bx":
+            raise SystemExit("c09 user code exits")
         if p[0] == "te" or (p[0] == "te1" and f["runs"] == 1):
             raise TypeError(MARK)
 
@@ -223,6 +350,7 @@ class World:
                 return self._t
 
             def who(self):
+                world._method_runs(self._serial)
                 return self._serial
         self.foreign = Foreign
         for k, (mode, creator, truth, eq) in enumerate(specs):
@@ -246,6 +374,7 @@ class World:
                 self._serial = world._new_serial(self)
 
             def who(self):
+                world._method_runs(self._serial)
                 return self._serial
             ns["__new__"] = __new__
             ns["__init__"] = __init__
@@ -345,6 +474,10 @@ class World:
                 if isinstance(d, dict):
                     d.pop(cls, None)
         self.dead = []
+        for d in sorted(self.closed):             # a daemon that was closed by a history is not reused
+            if d < len(self.daemons):
+                self.daemons[d] = self.make_daemon()
+        self.closed = set()
         while len(self.daemons) > 3:          # keep a small pool of live daemons between histories
             self.daemons.pop().close()
         self.classes = []
@@ -362,6 +495,7 @@ class World:
         self._begin_call(outcome)
         try:
             obj = self.daemons[d]._getInstance(self.classes[k], conn)
+            return ("S", obj.who())
         except TypeError as x:
             return ("RS",) if MARK in str(x) else ("TE",)
         except FAIL:
@@ -370,7 +504,13 @@ class World:
             return ("DE",)
         except Exception as x:          # anything else is not in the model's alphabet
             return ("EXC", type(x).__name__)
-        return ("S", obj.who())
+        except (SystemExit, KeyboardInterrupt):
+            return self._interrupted()
+
+    def _interrupted(self, ident=None):
+        """user code raised a BaseException: in the method (an instance had been handed out) or during the creation"""
+        served = self.flags[ident or threading.get_ident()]["served"]
+        return ("S", served) if served is not None else ("RS",)
 
     def call_request(self, k, conn, outcome, d=0):
         """the same call as a real INVOKE message through Daemon.handleRequest"""
@@ -383,12 +523,30 @@ class World:
         msg = protocol.SendingMessage(protocol.MSG_INVOKE, 0, self.seq, ser.serializer_id, data)
         conn.sock.feed(msg.data)
         del conn.sock.out[:]
-        self.daemons[d].handleRequest(conn)
+        try:
+            self.daemons[d].handleRequest(conn)
+        except (SystemExit, KeyboardInterrupt):
+            return self._interrupted()
         from Pyro5 import socketutil
         reply = protocol.recv_stub(socketutil.SocketConnection(FakeSock(bytes(conn.sock.out)), keep_open=True),
                                    [protocol.MSG_RESULT])
         if reply.seq != self.seq:
             return ("EXC", "seq")
+        return self._decode_reply(reply)
+
+    def call_job(self, k, jc, outcome, d=0):
+        """the same call as an INVOKE message on a connection that is served by the real thread-server job"""
+        oid = self.register(k, d)
+        self._begin_call(outcome, jc.ident)
+        reply = jc.invoke(oid) if jc.alive else None
+        if reply is None:                      # the worker died: a BaseException went through the job
+            return self._interrupted(jc.ident) if isinstance(jc.exc, (SystemExit, KeyboardInterrupt)) \
+                else ("EXC", type(jc.exc).__name__ if jc.exc else "worker-ended")
+        return self._decode_reply(reply)
+
+    def _decode_reply(self, reply):
+        from Pyro5 import errors, protocol, serializers
+        ser = serializers.serializers["serpent"]
         val = ser.loads(reply.data)
         if reply.flags & protocol.FLAGS_EXCEPTION:
             if isinstance(val, TypeError):
@@ -415,7 +573,8 @@ class HistoryRun:
         world.ensure_daemons(self.m)
         self.gen = [0] * self.m
         self.dobj = {(d, 0): world.daemons[d] for d in range(self.m)}     # (daemon, generation) -> Daemon object
-        self.conns = {}            # flat connection id -> SocketConnection
+        self.retired = []
+        self.conns = {}            # flat connection id -> SocketConnection (or JobConn on the job path)
         self.canon = {}            # serial -> order of first appearance among the objects that served
         self.obs = []
         self._register_defaults(range(self.m))
@@ -426,10 +585,19 @@ class HistoryRun:
                 for d in daemons:
                     self.world.register(k, d)      # `register` is what gives an undecorated class its instancing
 
-    def conn(self, c):
+    def new_conn(self, c, keep):
+        if self.hist.get("path") == "job":
+            return JobConn(self.world, self.world.daemons[c % self.m], keep, c in self.hist.get("bad_shutdown", ()))
+        return self.sc(self.sock(c), keep_open=bool(keep))
+
+    def conn(self, c, for_call=False):
         fc = self.flat["conn_id"][(c, self.gen[c % self.m])]
-        if fc not in self.conns:
-            self.conns[fc] = self.sc(self.sock(c), keep_open=False)
+        if fc not in self.conns or (for_call and isinstance(self.conns[fc], JobConn) and not self.conns[fc].alive):
+            # a label never opened, or (job path) a connection whose worker has ended: the next client is a new connection;
+            # for the model the closed connection has an empty table, which is the same thing
+            if fc in self.conns:
+                self.retired.append(self.conns[fc])
+            self.conns[fc] = self.new_conn(c, False)
         return self.conns[fc]
 
     def sock(self, c):
@@ -445,19 +613,27 @@ class HistoryRun:
                 self.gen[d] += 1
                 self.dobj[(d, self.gen[d])] = w.daemons[d]
                 self._register_defaults([d])
+            elif ev[0] == "Z":
+                w.daemons[ev[1]].close()          # Daemon.close(): the object, its tables and its connections live on
+                w.closed.add(ev[1])
             elif ev[0] == "O":
                 fc = self.flat["conn_id"][(ev[1], self.gen[ev[1] % self.m])]
-                self.conns[fc] = self.sc(self.sock(ev[1]), keep_open=bool(ev[2]))
+                if fc in self.conns:
+                    self.retired.append(self.conns[fc])
+                self.conns[fc] = self.new_conn(ev[1], ev[2])
                 self.obs.append(("-",))
             elif ev[0] == "X":
-                self.conn(ev[1]).close()
-                self.obs.append(("-",))
+                cn = self.conn(ev[1])
+                cn.close()
+                self.obs.append(("-", len(cn.pyroInstances), bool(cn.job.csock.keep_open if isinstance(cn, JobConn)
+                                                                 else cn.keep_open)))
             else:
                 _, c, k, outcome = ev
-                conn = self.conn(c)
+                conn = self.conn(c, for_call=True)
                 before_ctor = len(w.ctor_log)
                 before_cc = w.creator_calls[k]
-                r = (w.call_request if path == "request" else w.call_direct)(k, conn, outcome, c % self.m)
+                call = w.call_job if path == "job" else w.call_request if path == "request" else w.call_direct
+                r = call(k, conn, outcome, c % self.m)
                 cc = w.creator_calls[k] - before_cc
                 if r[0] == "S":
                     serial = r[1]
@@ -473,10 +649,17 @@ class HistoryRun:
                     self.obs.append(("TE", cc))
                 else:
                     self.obs.append(r)
+        self.line = self.canonical()
+        for cn in list(self.conns.values()) + self.retired:       # job path: let every worker end
+            if isinstance(cn, JobConn) and cn.alive:
+                cn.job.csock.keep_open = False
+                cn.close()
         return self.obs
 
     def canonical(self):
         """the line the model must print for the flattened history"""
+        if getattr(self, "line", None) is not None:
+            return self.line
         out = []
         for o in self.obs:
             if o[0] == "S":
@@ -497,14 +680,14 @@ class HistoryRun:
             dm = self.dobj.get((d, g))
             inst = dm._pyroInstances.get(w.classes[k]) if dm is not None else None
             if inst is not None:
-                st.append("s%d=%s" % (fk, self.canon.get(inst.who(), "?%d" % inst.who())))
+                st.append("s%d=%s" % (fk, self.canon.get(inst._serial, "?%d" % inst._serial)))
         for fc, (c, g) in enumerate(self.flat["conn_info"]):
             if fc in self.conns:
                 for k in range(ncls):
                     inst = self.conns[fc].pyroInstances.get(w.classes[k])
                     if inst is not None:
                         st.append("c%d.%d=%s" % (fc, self.flat["cls_id"][(c % self.m, g, k)],
-                                                 self.canon.get(inst.who(), "?%d" % inst.who())))
+                                                 self.canon.get(inst._serial, "?%d" % inst._serial)))
         return ";".join(out) + " | " + " ".join(st)
 
 
@@ -513,7 +696,7 @@ MODEL_MODE = {"default": "session"}
 
 def hist_line(hist):
     """the driver input line of a history (flattened to one daemon)"""
-    if hist.get("ndaemon", 1) > 1 or any(ev[0] == "D" for ev in hist["events"]):
+    if "cls_info" not in hist:
         hist = flatten(hist)
     toks = ["hist", str(len(hist["classes"]))]
     for mode, creator, truth, eq in hist["classes"]:
@@ -527,7 +710,7 @@ def hist_line(hist):
             toks += ["X", str(ev[1])]
         else:
             o = ev[3]
-            toks += ["C", str(ev[1]), str(ev[2])] + (["rs"] if o[0] in FAILING else [o[0], str(int(o[1])), str(o[2])])
+            toks += ["C", str(ev[1]), str(ev[2])] + (["rs"] if o[0] in FAILING else [o[0], str(int(o[1])), str(o[2])])   # a 4th "mx" is not the model's business
     return " ".join(toks)
 
 
@@ -552,6 +735,10 @@ def judge_history(hist, obs):
                 del sess[key]
             continue
         if ev[0] == "X":
+            if len(o) > 1 and o[1] and not o[2]:
+                return ("session-not-dropped-at-close",
+                        "event %d: connection %d has ended (closed) but still holds %d session instance(s)"
+                        % (hist["kept"][j], hist["conn_info"][ev[1]][0], o[1]))
             if not keep.get(ev[1], False):
                 for key in [key for key in sess if key[0] == ev[1]]:
                     dropped[key] = sess[key][0]
@@ -682,7 +869,12 @@ def run_race(world, policy, prog, S):
             conn = socketutil.SocketConnection(FakeSock(), keep_open=False)
 
             def body():
-                for j, (k, outcome) in enumerate(calls):
+                for j, call in enumerate(calls):
+                    if call[0] == "L":                 # the daemon's request loop is (re-)entered and left at once
+                        daemon.requestLoop(loopCondition=lambda: False)
+                        results[t][j] = ("L",)
+                        continue
+                    k, outcome = call
                     before = len(world.ctor_log)
                     r = world.call_direct(k, conn, outcome)
                     if r[0] == "S":
@@ -696,9 +888,9 @@ def run_race(world, policy, prog, S):
         outcome = sc.run()
         per_class = {}
         for rs, calls in zip(results, prog["threads"]):
-            for r, (k, _) in zip(rs, calls):
+            for r, call in zip(rs, calls):
                 if r and r[0] == "S":
-                    per_class.setdefault(k, set()).add(r[1])
+                    per_class.setdefault(call[0], set()).add(r[1])
         objs = {s: (int(bool(world.objects[s]._t)), world.objects[s]._e) for ss in per_class.values() for s in ss}
         return sc, (outcome, [list(r) for r in results], list(acq), {k: sorted(v) for k, v in per_class.items()}, objs)
     finally:
@@ -725,8 +917,8 @@ def judge_race(prog, out):
         if len(serials) > 1:
             return ("single-race:two-instances", "class %d was served by %d different instances %r" % (k, len(serials), serials))
     for k in per_class:
-        made = sum(1 for rs, calls in zip(results, prog["threads"]) for r, (kk, _) in zip(rs, calls)
-                   if kk == k and r[0] == "S" and r[2])
+        made = sum(1 for rs, calls in zip(results, prog["threads"]) for r, call in zip(rs, calls)
+                   if call[0] == k and r[0] == "S" and r[2])
         if made > 1:
             return ("single-race:two-instances", "class %d: %d calls each constructed the instance" % (k, made))
     return None
@@ -735,7 +927,9 @@ def judge_race(prog, out):
 def race_model_line(prog, out):
     """the sequential history in lock-acquisition order (connection = thread) and what the real calls returned, canonically"""
     outcome, results, acq, per_class, objs = out
-    total = sum(len(p) for p in prog["threads"])
+    calls_of = [[c for c in p if c[0] != "L"] for p in prog["threads"]]
+    res_of = [[r for r, c in zip(rs, p) if c[0] != "L"] for rs, p in zip(results, prog["threads"])]
+    total = sum(len(p) for p in calls_of)
     if outcome != "ok" or len(acq) != total:
         return None, "lock acquired %d times for %d calls (%s)" % (len(acq), total, outcome)
     nxt = [0] * len(prog["threads"])
@@ -744,9 +938,9 @@ def race_model_line(prog, out):
     for tid in acq:
         j = nxt[tid]
         nxt[tid] += 1
-        k, outcome_k = prog["threads"][tid][j]
+        k, outcome_k = calls_of[tid][j]
         events.append(["C", tid, k, outcome_k])
-        r = results[tid][j]
+        r = res_of[tid][j]
         if r[0] == "S":
             if r[1] not in canon:
                 canon[r[1]] = len(canon)
